@@ -507,17 +507,18 @@ theorem File.run_eq_foldl : ∀ (sched : List Actor) (s : St), run s sched = sch
 /-- The same for the file backend: an admitted recorded run of real FileSession threads / the real
     clean_up is, up to stuttering, a run of the model, whose final state has every property of
     `C13_file_mutex`. -/
-theorem C13_file_admitted_safe (f0 : FileC) (to : Nat → Bool) (n fuel : Nat) (o0 : List Nat)
+theorem C13_file_admitted_safe (f0 : FileC) (to : Nat → Bool) (progs : List (List FOp)) (n fuel : Nat)
+    (o0 : List Nat)
     (tr : List (Turn Actor (List Nat) × Option (Nat × Nat))) (f : List Nat)
-    (h : admitsT step enabled (obs n) (fin n) lab isLocal fuel (init f0 to) o0 tr f = true ∨
-         admits step enabled (obs n) (fin n) (pruneBy (key n)) fuel (init f0 to) o0 (turns tr) f = true) :
+    (h : admitsT step enabled (obs n) (fin n) lab isLocal fuel (init f0 to progs) o0 tr f = true ∨
+         admits step enabled (obs n) (fin n) (pruneBy (key n)) fuel (init f0 to progs) o0 (turns tr) f = true) :
     ∃ sched : List Actor,
-      Run step (obs n) (init f0 to) (changes o0 (turns tr)) (run (init f0 to) sched) ∧
-      fin n (run (init f0 to) sched) = f ∧
-      (∀ i j, inCS ((run (init f0 to) sched).thr i).pc = true →
-        inCS ((run (init f0 to) sched).thr j).pc = true → i = j) ∧
-      (run (init f0 to) sched).lost = false := by
-  have key : ∃ x, Run step (obs n) (init f0 to) (changes o0 (turns tr)) x ∧ fin n x = f := by
+      Run step (obs n) (init f0 to progs) (changes o0 (turns tr)) (run (init f0 to progs) sched) ∧
+      fin n (run (init f0 to progs) sched) = f ∧
+      (∀ i j, inCS ((run (init f0 to progs) sched).thr i).pc = true →
+        inCS ((run (init f0 to progs) sched).thr j).pc = true → i = j) ∧
+      (run (init f0 to progs) sched).lost = false := by
+  have key : ∃ x, Run step (obs n) (init f0 to progs) (changes o0 (turns tr)) x ∧ fin n x = f := by
     rcases h with h | h
     · exact (admitsT_sound _ _ _ _ _ _ _ _ _ _ _ h).2
     · exact (admits_sound _ _ _ _ _ _ _ _ _ _ h).2
@@ -525,7 +526,7 @@ theorem C13_file_admitted_safe (f0 : FileC) (to : Nat → Bool) (n fuel : Nat) (
   obtain ⟨sched, hx⟩ := run_sched hr
   rw [← File.run_eq_foldl] at hx
   subst hx
-  have hm := C13_file_mutex f0 to sched
+  have hm := C13_file_mutex f0 to progs sched
   exact ⟨sched, hr, hf, hm.1, hm.2.2.1⟩
 
 end CpProofs.C13
